@@ -24,7 +24,7 @@ MAX_PAR = int(os.environ.get("VERIF_JOBS", "16"))
 
 def sha(x) -> str:
     if not isinstance(x, str):
-        x = json.dumps(x, sort_keys=True, default=repr, ensure_ascii=False)
+        x = json.dumps(x, sort_keys=True, default=repr, ensure_ascii=True)
     return hashlib.sha256(x.encode("utf-8", "surrogatepass")).hexdigest()[:16]
 
 
@@ -90,7 +90,7 @@ class Acc:
         }
         tmp = self.out_path + ".tmp"
         with open(tmp, "w") as f:
-            json.dump(data, f, default=repr, ensure_ascii=False)
+            json.dump(data, f, default=repr, ensure_ascii=True)
         os.replace(tmp, self.out_path)
 
 
@@ -100,6 +100,13 @@ def worker_main(argv):
     import faulthandler
 
     faulthandler.enable()
+    try:
+        import resource
+
+        lim = int(os.environ.get("VERIF_WORKER_MEM_GB", "4")) << 30
+        resource.setrlimit(resource.RLIMIT_AS, (lim, lim))
+    except Exception:
+        pass
     env.setup_paths()
     env.quiet()
     env.check_repo_import()
@@ -214,7 +221,7 @@ def write_evidence(pid, ev):
     except FileNotFoundError:
         pass
     with open(path, "w") as f:
-        json.dump(ev, f, indent=1, default=repr, ensure_ascii=False)
+        json.dump(ev, f, indent=1, default=repr, ensure_ascii=True)
     return path
 
 
@@ -223,7 +230,7 @@ def write_replay(pid, v):
     os.makedirs(d, exist_ok=True)
     path = os.path.join(d, sha({"sig": v["sig"], "input": v["input"]}) + ".json")
     with open(path, "w") as f:
-        json.dump({"property": pid, **v}, f, indent=1, default=repr, ensure_ascii=False)
+        json.dump({"property": pid, **v}, f, indent=1, default=repr, ensure_ascii=True)
     return path
 
 
@@ -262,7 +269,7 @@ def main(argv=None):
                 bad += 1
                 print(f"VIOLATION property={pid} replay={args.replay}")
                 print("  sig:", v["sig"])
-                print("  witness:", json.dumps(v["witness"], default=repr, ensure_ascii=False)[:2000])
+                print("  witness:", json.dumps(v["witness"], default=repr, ensure_ascii=True)[:2000])
         if not acc.violations:
             print(f"replay: no violation reproduced ({acc.evaluations} evaluations)")
         return 1 if bad else 0
